@@ -89,6 +89,12 @@ func (d *factsDomain) Transfer(n *Node, s Store) []Store {
 				}
 			}
 		}
+	case *ast.ValueSpec:
+		if len(a.Values) == len(a.Names) {
+			for i, nm := range a.Names {
+				assign(nm, a.Values[i], false)
+			}
+		}
 	}
 	return []Store{s}
 }
